@@ -103,7 +103,7 @@ def execute(plan, scratch_root=None, decisions=None, jitters=None):
             w = tt.Worker('w', max_queue_size=cfg['max_queue_size'])
             sched.begin_op()
             w.__enter__()
-            wst = w.worker_thread._st
+            wst = sched.threads[1]  # the worker thread (first simulated thread created), whatever tenpy calls it
             if line:
                 sched.enable_main_tracing()
             put_ok = []  # tids whose put_task returned normally, in order
@@ -118,7 +118,11 @@ def execute(plan, scratch_root=None, decisions=None, jitters=None):
                     sched.probe('fault_fired:worker_stall')
                 sched.begin_op()
                 sched.yield_point('op')
-                states.add(core.h64((kind, len(w.tasks.items), min(w.tasks.unfinished, 4), wst.state, w.exit._flag)))
+                try:  # internals, for the coverage measure only
+                    states.add(core.h64((kind, len(w.tasks.items), min(w.tasks.unfinished, 4), wst.state,
+                                         w.exit._flag)))
+                except AttributeError:
+                    states.add(core.h64((kind, wst.state)))
                 dead_before = wst.state == DONE
                 facts = dict(facts0, op=kind, after_exit=exited)
                 try:
